@@ -25,7 +25,7 @@ CLAIMS = {
     "C03": ("For all 14 states x all 1,112,064 scalar values the next state and kind of action of Parser::feed equal an independently written Williams table (one query); "
             "the action helpers, csi/esc/execute dispatch for every final / intermediate / parameter value, mode lists, parameter accumulation and saturation, "
             "memoryless re-entry (ESC, CSI, DCS clear all 32 parameters) and ESC Fe == C1 are decided directly from an arbitrary parser state satisfying InvP.",
-            "Bounds: <= 8 mode parameters per list, cur_param in {0,1,2,5,31}; recorder / contract stubs of avt functions listed in the evidence, each justified by a harness deciding the real function.", "5/C03"),
+            "Bounds: <= 8 mode parameters per list, cur_param in {0,1,2,5,30,31}; recorder / contract stubs of avt functions listed in the evidence, each justified by a harness deciding the real function.", "5/C03"),
     "C04": (STEP + "Print(ch) for every printable scalar value: translated glyph and current pen in exactly one cell, cursor advance / wrap-pending / deferred wrap with "
             "mark and region scroll, insert-mode shift, auto-wrap-off overwrite, nothing else changes; REP 0/1 == one print; charset table; SO/SI/designations/IRM/DECAWM.", NOTE, "5/C04"),
     "C05": (STEP + "Closed-form post-conditions for BS, CR, CUU, CUD, CUF, CUB, CNL, CPL, CHA, CUP, VPA, VPR, HT, CHT, CBT, LF/NEL/RI off the margin, DECSTBM, DECOM for all u16 "
@@ -36,7 +36,7 @@ CLAIMS = {
             "soft-wrap mark cleared when the tail is erased / characters deleted, cursor and everything else unchanged.", NOTE, "5/C07"),
     "C08": ("SGR decoding: for any list of 6 parameters with any sub-parameters, a leading well-formed operation (after 0-2 unknown codes) is decoded to exactly the statement's "
             "operation and consumes exactly its parameters (induction over the list); general lists of <= 2 parameters in full. The pen reaches printed and blanked cells "
-            "(print / erase / scroll / alternate-screen harnesses assert cell.pen == pen).", NOTE + " Pen::dump round trip outside.", "5/C08"),
+            "(print / erase / scroll / alternate-screen harnesses assert cell.pen == pen); execute(Sgr(ops)) is the left fold of 0-3 arbitrary operations over any pen.", NOTE + " Pen::dump round trip outside.", "5/C08"),
     "C09": ("Cell level only: from any Plain state (what printable text and CR LF drive a fresh primary screen into, with arbitrary lines above the cursor and "
             "0-2 scrollback lines, unlimited scrollback) each plain-text step - print, print with a deferred wrap, CR LF - writes exactly one cell / marks exactly "
             "the row left / starts the next line in absolute line coordinates, appends a line exactly on the last row, and re-establishes Plain; by induction the "
@@ -57,7 +57,7 @@ CLAIMS = {
     "C16": (STEP + "Entering (47/1047/1049) parks the primary line for line and presents blanks in the current pen; every family leaves the parked screen untouched; leaving "
             "restores it, with a stale height re-synchronised without altering a line; 1049 cursor save / restore.", NOTE, "5/C16"),
     "C17": (STEP + "DECSC/SCOSC/1048h/1049h store exactly (col, row, pen, origin, auto-wrap); DECRC/SCORC/1048l/1049l restore them; contexts are per screen (swap); "
-            "every other family leaves both untouched; resize clamps the saved position.", NOTE, "5/C17"),
+            "every other family leaves both untouched; resize clamps the saved position; RIS returns both to the power-on defaults.", NOTE, "5/C17"),
     "C18": ("For every tab-stop set satisfying the set invariant (strictly increasing, inside the screen) with a bounded number of stops, the solver decides Tabs::new / set / unset / "
             "clear / expand / contract / after / before against membership formulas for all widths <= 73, all columns and all u16 counts; HT/CHT/CBT/HTS/CTC/TBC and "
             "Terminal::resize glue are decided from an arbitrary terminal state. One inductive step over an arbitrary valid set covers resize/edit histories of any length.",
